@@ -315,47 +315,59 @@ Proof.
 Qed.
 
 (* ------------------------------------------------------------------ JUnit (C20) *)
-Theorem junit_counts s :
-  let j := junit_of s in
+Theorem junit_counts syn s :
+  let j := junit_of syn s in
   j_tests j = length (j_cases j) /\
   j_failures j = length (filter (fun c => match snd c with [0] => true | _ => false end) (j_cases j)) /\
   j_errors j = length (filter (fun c => match snd c with [0; 1] => true | _ => false end) (j_cases j)) /\
   j_skipped j = length (filter (fun c => match snd c with [2] => true | _ => false end) (j_cases j)) /\
-  map fst (j_cases j) = map fst (ts_tests s).
+  map fst (j_cases j) = map fst (junit_tests syn s).
 Proof.
   simpl. unfold count_status. rewrite map_length, map_map. simpl.
   repeat split; try reflexivity;
-    induction (ts_tests s) as [|[n st] l IH]; simpl; try reflexivity; destruct st; simpl; rewrite IH; reflexivity.
+    induction (junit_tests syn s) as [|[n st] l IH]; simpl; try reflexivity; destruct st; simpl; rewrite IH; reflexivity.
 Qed.
 
-(* the report contains a failure/error element iff some test case failed or errored *)
-Theorem junit_failure_iff_tests s : junit_has_failure (junit_of s) = negb (tests_ok (ts_tests s)).
+(* every test case of the suite appears in the report, in order; at most one synthetic case is appended *)
+Theorem junit_cases_are_reports syn s :
+  junit_tests syn s = ts_tests s \/
+  (junit_tests syn s = ts_tests s ++ [(syn, tsuite_status s)] /\ tsuite_bool s = false /\ tests_ok (ts_tests s) = true).
 Proof.
-  unfold junit_has_failure, junit_of, tests_ok. simpl.
-  induction (ts_tests s) as [|[n st] l IH]; simpl; [reflexivity|].
-  rewrite IH. destruct st; reflexivity.
+  unfold junit_tests. destruct (tsuite_bool s) eqn:B; simpl; [left; reflexivity|].
+  destruct (tests_ok (ts_tests s)) eqn:T; [right; tauto | left; reflexivity].
 Qed.
 
-(* C20 (guarded form): for suites whose verdict comes from their test cases, or whose explicit failing status is
-   backed by a failing case, the report has a failure/error exactly when the exit code is non-zero *)
-Theorem junit_agrees_with_exit s :
-  (ts_status s = None \/ tsuite_bool s = tests_ok (ts_tests s)) ->
-  (junit_has_failure (junit_of s) = true <-> exit_code (tsuite_bool s) <> 0).
+Lemma has_failure_tests l :
+  existsb (fun c => existsb (fun tag => (tag =? 0) || (tag =? 1)) (snd c)) (map (fun t : nat * tstatus => (fst t, case_children (snd t))) l)
+  = negb (tests_ok l).
 Proof.
-  intro H. rewrite junit_failure_iff_tests.
-  assert (E : tsuite_bool s = tests_ok (ts_tests s)).
-  { destruct H as [H|H]; [|exact H]. unfold tsuite_bool. rewrite H. reflexivity. }
-  rewrite E. destruct (tests_ok (ts_tests s)); simpl; split; intro X; congruence.
+  unfold tests_ok. induction l as [|[n st] l IH]; simpl; [reflexivity|]. rewrite IH. destruct st; reflexivity.
 Qed.
 
-Theorem junit_skipped_exact is ir S n st :
+(* C20: the report contains a failure or error element exactly when the exit code is non-zero *)
+Theorem junit_agrees_with_exit syn s :
+  consistent s ->
+  (junit_has_failure (junit_of syn s) = true <-> exit_code (tsuite_bool s) <> 0).
+Proof.
+  intro C. unfold junit_has_failure, junit_of. simpl j_cases. rewrite has_failure_tests.
+  unfold junit_tests. destruct (tsuite_bool s) eqn:B; simpl.
+  - rewrite (C B). simpl. split; [discriminate | congruence].
+  - destruct (tests_ok (ts_tests s)) eqn:T; simpl.
+    + rewrite tests_ok_app, T. simpl. unfold tests_ok. simpl. rewrite tsuite_status_ok, B. simpl. split; [discriminate | reflexivity].
+    + rewrite T. simpl. split; [discriminate | reflexivity].
+Qed.
+
+Theorem junit_skipped_exact syn is ir S n st :
   dom_ok S = true -> In (n, st) (entries S) ->
-  (In (n, [2]) (j_cases (junit_of (to_tsuite is ir S))) <->
+  (In (n, [2]) (j_cases (junit_of syn (to_tsuite is ir S))) <->
    In (n, Filtered) (entries S) \/ (In (n, MissingSource) (entries S) /\ is = true) \/
    (In (n, MissingReference) (entries S) /\ ir = true)).
 Proof.
-  intros Hd _. unfold junit_of, to_tsuite. rewrite Hd. simpl. rewrite map_map. simpl. rewrite in_map_iff. split.
-  - intros [[m s'] [E He]]. simpl in E. inversion E; subst.
+  intros Hd _.
+  assert (E : junit_tests syn (to_tsuite is ir S) = ts_tests (to_tsuite is ir S)).
+  { unfold junit_tests, to_tsuite, tsuite_bool. rewrite Hd. simpl. destruct (tests_ok _); reflexivity. }
+  unfold junit_of. simpl j_cases. rewrite E. unfold to_tsuite. rewrite Hd. simpl. rewrite map_map. simpl. rewrite in_map_iff. split.
+  - intros [[m s'] [E' He]]. simpl in E'. inversion E'; subst.
     destruct s'; simpl in *; try discriminate; [destruct is; try discriminate; tauto | destruct ir; try discriminate; tauto | tauto].
   - intros [H|[[H Hi]|[H Hi]]]; [exists (n, Filtered) | exists (n, MissingSource) | exists (n, MissingReference)];
       simpl; subst; split; try exact H; reflexivity.
